@@ -1,3 +1,4 @@
+import PcfgVerif.Generated.ProcessState
 import PcfgVerif.Model.Sampler
 import PcfgVerif.Generated.CliOptions
 import PcfgVerif.Lemmas.ExpandLemmas
@@ -268,6 +269,13 @@ theorem C16_rule_name_is_the_typed_name :
     Generated.CliOptions.guesserAssign.filter (fun a => a.2.1 == "rule_name") =
       [("parse_command_line", "rule_name", "args.rule"),
        ("load_save", "rule_name", "save_config.get('rule_info', 'rule_name')")] := by
+  decide
+
+/-- **nothing outlives a call except the objects a caller holds** (regenerated from the four library packages): no module-level or
+class-level container that changes, no cache decorator or cache call, no computed default argument and no `global` statement anywhere in
+`lib_guesser`, `lib_trainer`, `lib_scorer`, `lib_princeling` - an answer cannot depend on what another object, an earlier ruleset in the
+same process or the other thread did -/
+theorem C16_no_process_wide_state : Generated.ProcessState.processWideState = [] := by
   decide
 
 end Pcfg.C16
